@@ -91,7 +91,7 @@ def exact_groups(tier, seed):
     for k, isa in enumerate(isas):
         for t in ("float", "double"):
             # quick: per ISA one type gets the full plan (rotating with the seed), the other a reduced one
-            full = tier == "thorough" or (("float", "double")[(k + seed) % 2] == t)
+            full = ("float", "double")[(k + seed) % 2] == t
             calls = []
             def add(n, strats, cols, forms=(0,), sds=seeds):
                 for s in strats:
@@ -107,7 +107,8 @@ def exact_groups(tier, seed):
                 small = [3, 8, rng.choice([2, 4, 5, 6, 7])] if full else [4]
                 mid = [9, rng.choice([16, 17])] if full else [rng.choice([8, 9]), 17]
             else:
-                small = list(range(1, 9)); mid = [9, 10, 12, 16, 17, 20]
+                small = [1, 2, 3, 4, 5, 6, 7, 8] if full else [2, 4, 7]
+                mid = [9, 10, 12, 16, 17, 20] if full else [9, 16]
             for n in small + mid:
                 wide = rng.choice([c for c in range(2, 9) if c != n])
                 add(n, range(6), [0, wide], sds=seeds if full else seeds[:1])
